@@ -22,3 +22,34 @@ class Bounded:
         r.setdefault("exhaustive", False)
         r["wall_s"] = round(time.time() - t0, 2)
         return r
+
+
+def run_cases(cases, check, chunk=0, nchunks=1, rule="", bounds="", engine="rc", exhaustive=True, max_samples=3, time_budget_s=None, assumptions=None):
+    """cases: iterable of JSON-able case descriptions (deterministic order); check(case) -> dict(ok=bool|None, nontrivial=bool, fingerprint, what, detail).
+    ok=None means undecided for that case (e.g. oracle gave no certified answer)."""
+    ev = nt = 0
+    failures, samples, undecided = [], [], []
+    t0 = time.time()
+    complete = True
+    for idx, case in enumerate(cases):
+        if idx % nchunks != chunk:
+            continue
+        if time_budget_s is not None and time.time() - t0 > time_budget_s:
+            complete = False
+            break
+        ev += 1
+        try:
+            r = check(case)
+        except (Exception, SystemExit) as e:
+            r = dict(ok=None, nontrivial=False, what="harness exception %s: %s | %s" % (type(e).__name__, e, traceback.format_exc()[-500:]))
+        if r.get("nontrivial"):
+            nt += 1
+        if r.get("ok") is False:
+            failures.append(dict(fingerprint=r.get("fingerprint", "unclassified"), what=r.get("what", ""), replay=dict(case=case, detail=r.get("detail"))))
+        elif r.get("ok") is None:
+            undecided.append(dict(case=str(case)[:200], reason=r.get("what", "undecided")[:600]))
+        if len(samples) < max_samples:
+            samples.append(dict(case=case, result={k: r.get(k) for k in ("ok", "detail") if k in r}))
+    return dict(engine=engine, evaluations=ev, distinct_nontrivial=nt, failures=failures, samples=samples, undecided=undecided[:20],
+                rule=rule, bounds=bounds + ("" if complete else " (time budget hit: enumeration truncated)"), exhaustive=bool(exhaustive and complete),
+                assumptions=assumptions or [])
